@@ -4,7 +4,7 @@
    compile_correct_* (Props/C16.v) relate the VM model to CompileSem.lx_l, a big-step semantics
    over VALUE environments; every evaluator check of the development runs against coq/Sem.v,
    where every value is a heap cell.  Here: on the fragment [tfrag_l] (number / bool / ASCII
-   string literals, variables, groups, unary - !, + - * / and the comparisons on numbers, + and
+   string literals, variables, groups, unary - !, + - * / % and the comparisons on numbers, + and
    the comparisons on strings, == != on numbers, bools and strings; declarations anywhere,
    assignments to variables, if / else if / else, while, break, the empty statement), whenever
    lx_l is defined the Sem.v run of the same program ends normally, prints nothing, and every
